@@ -170,7 +170,12 @@ def rule_recall(repo, rule='C07.R16'):
         ('define for reuse, a second bitmap not for reuse, recall', [('define', A, True), ('define', B, False), ('recall',)], [12101, 11002], A),
         ('define for reuse, a second bitmap for reuse, recall', [('define', A, True), ('define', B, True), ('recall',)], [10004], B),
         ('define for reuse, cancel (237255), recall', [('define', A, True), ('cancel',), ('recall',)], 'error', None),
+        # the operator itself, not only the state method: 237255 cancels the bitmap defined for reuse whatever was built since
+        ('define for reuse, operator 237255, recall', [('define', A, True), ('op237255',), ('recall',)], 'error', None),
+        ('define for reuse, a second bitmap not for reuse, operator 237255, recall', [('define', A, True), ('define', B, False), ('op237255',), ('recall',)], 'error', None),
+        ('define for reuse, operator 237255, define for reuse again, recall', [('define', A, True), ('op237255',), ('define', B, True), ('recall',)], [10004], B),
     ]
+    opfi = repo.method('Decoder', 'process_operator_descriptor')
     for name, steps, want, want_bitmap in scenarios:
         it = WalkInterp(repo, 'Decoder')
         st = make_state(repo, it, {'decoded_descriptors': list(descs), 'back_reference_boundary': 3, 'back_referenced_descriptors': None})
@@ -183,6 +188,11 @@ def rule_recall(repo, rule='C07.R16'):
                 r = step(it, build, st, bitmap=list(s_[1]))
             elif s_[0] == 'cancel':
                 r = step(it, cancel, st)
+            elif s_[0] == 'op237255':
+                res = it.run_function(opfi, lambda: {'self': Obj('Decoder', {}), 'state': st, 'bit_operator': Top('bitop'), 'descriptor': operator(237, 255)}, self_class='Decoder')
+                if len(res) != 1:
+                    raise AnalysisError('process_operator_descriptor(237255) forks on a concrete state')
+                r = res[0]
             else:
                 r = step(it, recall, st)
                 value = r.value if r.ok else None
@@ -205,7 +215,7 @@ def rule_recall(repo, rule='C07.R16'):
         if got != want or value != want_bitmap:
             rr.fail('recall_bitmap:chain', recall.where, '%s: after recall_bitmap (which returns %r) the next %d values are matched to %s; the bitmap defined for reuse is %s '
                     'over 012101 010004 011002, whose zero bits designate %s' % (name, value, len(want), got, want_bitmap, want), witness={'scenario': name})
-    rr.require_floor(4)
+    rr.require_floor(7)
     return rr
 
 def rule_pipeline_links(repo, rule='C07.R17'):
